@@ -116,10 +116,40 @@ class C18ReuseSrcCL(Component):
   def line_trace(s):
     return f"{s.send}"
 
+class C18BufSinkCL(Component):
+  """a consumer that does not copy: the received response OBJECTS wait in a small buffer (a plain list of `cap` entries) and a
+  slow consumer takes the oldest one every `period` cycles; `on_drain` sees the object as it is at that time"""
+  def construct(s, nresp, cap, period, on_recv, on_drain):
+    s.buf = []
+    s.cap, s.period, s.nresp = cap, period, nresp
+    s.cycle = 0
+    s.ndrained = 0
+    s.on_recv, s.on_drain = on_recv, on_drain
+
+    @update_once
+    def up_drain():
+      s.cycle += 1
+      if s.buf and s.cycle % s.period == 0:
+        s.on_drain(s.buf.pop(0))
+        s.ndrained += 1
+
+    s.add_constraints(U(up_drain) < M(s.recv), U(up_drain) < M(s.recv.rdy))
+
+  @non_blocking(lambda s: len(s.buf) < s.cap)
+  def recv(s, msg):
+    s.on_recv(msg)
+    s.buf.append(msg)
+
+  def done(s):
+    return s.ndrained >= s.nresp and not s.buf
+
+  def line_trace(s):
+    return f"{s.recv}"
+
 class C18HarnessAlias(Component):
   """MagicMemoryCL driven per port by the stock RTL test source through the auto-inserted RTL->CL adapter ('rtlsrc'), by
   C18ReuseSrcCL (its modes), or by the stock TestSrcCL ('cl')"""
-  def construct(s, nports, types, drivers, reqs, stall_prob, latency, src_init, src_intv, sink_init, sink_intv, cmp_fns, mem_nbytes):
+  def construct(s, nports, types, drivers, reqs, stall_prob, latency, src_init, src_intv, sink_init, sink_intv, cmp_fns, mem_nbytes, buf=None):
     from pymtl3.stdlib.test_utils.test_srcs import TestSrcRTL
     def mk(i):
       if drivers[i] == 'rtlsrc':
@@ -129,7 +159,10 @@ class C18HarnessAlias(Component):
       return C18ReuseSrcCL(types[i][0], reqs[i], src_init[i], src_intv[i], drivers[i])
     s.srcs = [mk(i) for i in range(nports)]
     s.mem = MagicMemoryCL(nports, list(types), stall_prob, latency, mem_nbytes)
-    s.sinks = [TestSinkCL(types[i][1], [None] * len(reqs[i]), sink_init[i], sink_intv[i], None, cmp_fns[i]) for i in range(nports)]
+    if buf:
+      s.sinks = [C18BufSinkCL(len(reqs[i]), buf['cap'][i], buf['period'][i], cmp_fns[i][0], cmp_fns[i][1]) for i in range(nports)]
+    else:
+      s.sinks = [TestSinkCL(types[i][1], [None] * len(reqs[i]), sink_init[i], sink_intv[i], None, cmp_fns[i]) for i in range(nports)]
     for i in range(nports):
       connect(s.srcs[i].send, s.mem.ifc[i].req)       # for 'rtlsrc': RTL master -> CL memory, adapter inserted by connect
       connect(s.mem.ifc[i].resp, s.sinks[i].recv)
@@ -187,6 +220,21 @@ def get_image(memc, fl, dump):
   assert base + size == len(fl.mem)
   return (list(memc.read_mem(base, size - 1)) if size > 1 else []) + [fl.mem[base + size - 1]]
 
+def check_held(R):
+  """a response belongs to its receiver: no two responses delivered on a port are the same Python object, and a delivered
+  object still has the field values it had on delivery"""
+  if R.held is None: return
+  for i, hs in enumerate(R.held):
+    seen = {}
+    for k, (obj, snap) in enumerate(hs):
+      if id(obj) in seen:
+        R.resp_objects.append({'what': 'same-object-delivered-twice', 'port': i, 'responses': [seen[id(obj)], k], 'values': snap})
+      else: seen[id(obj)] = k
+      now = resp_tuple(obj)
+      if now != snap:
+        R.resp_objects.append({'what': 'mutated-after-delivery', 'port': i, 'response': k, 'at_delivery': snap, 'at_end': now})
+  R.held = None     # the objects are not needed any more
+
 class Run:
   """result of one simulation"""
   def __init__(self):
@@ -196,6 +244,8 @@ class Run:
     self.image = None
     self.cycles = 0
     self.timeout = False
+    self.held = None     # per port [response object as delivered, its field values at delivery] (CL memories)
+    self.resp_objects = []   # findings of check_held
 
 def run_system(kind, cfg, image, dump, max_cycles=3000):
   """kind 'cl' | 'rtl'. cfg: dict(nports, dbits, reqs (per port list of 5-lists), stall_prob, latency,
@@ -209,9 +259,11 @@ def run_system(kind, cfg, image, dump, max_cycles=3000):
   R.deliv = [[] for _ in range(n)]
   holder = {}
   clock = lambda: holder['top']._sim.simulated_cycles
+  if kind == 'cl': R.held = [[] for _ in range(n)]
   def mk_cmp(i):
     def f(msg, ref):
       R.deliv[i].append([clock(), resp_tuple(msg)])
+      if R.held is not None: R.held[i].append([msg, resp_tuple(msg)])     # keep the object itself, as a non-copying consumer would
       return True
     return f
   msgs = [[mk_req(widths[i], r, abits) for r in cfg['reqs'][i]] for i in range(n)]
@@ -283,6 +335,7 @@ def run_system(kind, cfg, image, dump, max_cycles=3000):
     th.sim_tick(); sample(th.sim_cycle_count())
   R.cycles = th.sim_cycle_count() + 1
   R.env = [envd[c] for c in range(R.cycles)]
+  check_held(R)
   R.image = get_image(th.mem, th.mem.mem, dump)
   return R
 
@@ -318,13 +371,20 @@ def run_alias(cfg, image, dump, max_cycles=3000):
   R.deliv = [[] for _ in range(n)]
   holder = {}
   clock = lambda: holder['top']._sim.simulated_cycles
+  R.held = [[] for _ in range(n)]
+  buf = cfg.get('bufsink')        # None: stock TestSinkCL; else dict(cap, period per port): C18BufSinkCL
   def mk_cmp(i):
+    if buf:
+      # (on delivery, on drain): the object is kept on delivery, its VALUE is taken when the slow consumer drains it
+      return (lambda msg: R.held[i].append([msg, resp_tuple(msg)]),
+              lambda msg: R.deliv[i].append([clock(), resp_tuple(msg)]))
     def f(msg, ref):
       R.deliv[i].append([clock(), resp_tuple(msg)])
+      R.held[i].append([msg, resp_tuple(msg)])
       return True
     return f
   th = C18HarnessAlias(n, types, cfg['drivers'], cfg['reqs'], cfg['stall_prob'], cfg['latency'],
-                       cfg['src_init'], cfg['src_intv'], cfg['sink_init'], cfg['sink_intv'], [mk_cmp(i) for i in range(n)], cfg.get('mem_nbytes', 1 << 16))
+                       cfg['src_init'], cfg['src_intv'], cfg['sink_init'], cfg['sink_intv'], [mk_cmp(i) for i in range(n)], cfg.get('mem_nbytes', 1 << 16), buf)
   th.elaborate()
   holder['top'] = th
   put_image(th.mem, th.mem.mem, image)
@@ -338,5 +398,6 @@ def run_alias(cfg, image, dump, max_cycles=3000):
     th.sim_tick()
   R.cycles = th.sim_cycle_count() + 1
   R.env = None
+  check_held(R)
   R.image = get_image(th.mem, th.mem.mem, dump)
   return R
